@@ -1042,6 +1042,14 @@ class ExprMixin:
             return fmt % (tuple(vals) if isinstance(arg, tuple) else arg)
         if hasattr(self, "sym_format"):
             return self.sym_format(fmt, arg, st)
+        import re as _re
+        m = _re.fullmatch(r"%0(\d+)d", fmt) if isinstance(fmt, str) else None
+        if m and len(vals) == 1 and is_z3(vals[0]):
+            from .strings import DigitField
+            w = int(m.group(1))
+            v = trunc_int(vals[0])
+            if self.decide(st, z3.And(v >= 0, v < 10 ** w)) is True:
+                return DigitField(w, v)      # %0Nd of 0 <= v < 10**N: its N-digit spelling
         return Opaque("formatted-string")
 
 
